@@ -77,6 +77,18 @@ TraceTick ==
         /\ Follow(e, <<>>)
   /\ UNCHANGED <<C, issued>>
 
+\* the store is closed and opened again on the same database (a restart): every message is exactly as it was -
+\* in particular a lease that has not run out is still held - and the volatile throttles start afresh
+TraceReopen ==
+  /\ IsEvent("Reopen")
+  /\ LET e == Trace[l]
+     IN /\ Chk("err", e.r.err = "")
+        /\ Chk("post", e.post = S.msgs)
+        /\ Chk("vol", e.vol.lp = 0 /\ e.vol.ls = 0)
+        /\ Generic(e, "read", <<>>)
+        /\ Follow(e, <<>>)
+  /\ UNCHANGED <<C, issued>>
+
 TraceEnqueue ==
   /\ (IsEvent("Enqueue") \/ IsEvent("EnqueueBatch"))
   /\ LET e      == Trace[l]
@@ -300,7 +312,7 @@ TraceStats ==
   /\ UNCHANGED <<C, issued>>
 
 Next ==
-  \/ TraceReset \/ TraceTick \/ TraceEnqueue \/ TraceDequeue \/ TraceLeaseOp \/ TraceLeaseBatch
+  \/ TraceReset \/ TraceTick \/ TraceReopen \/ TraceEnqueue \/ TraceDequeue \/ TraceLeaseOp \/ TraceLeaseBatch
   \/ TraceMutateIds \/ TraceMutateFilter \/ TraceFilterSelect \/ TraceFilterApply \/ TraceListMessages \/ TraceListDead \/ TraceLookup \/ TraceStats
 
 Spec == Init /\ [][Next]_vars
